@@ -155,4 +155,78 @@ theorem layout_refines_asm_global_partial {num : Nat → Bytes → Nat} (hinj : 
             simp only [List.append_nil, Layout.Ref.pass1] at this
             exact this
 
+/-! ### non-vacuity -/
+
+/-- a decidable form of `GlobalProject` -/
+def globalProjectB (fs : Bytes → Option Bytes) : Nat → Bytes → Bytes → Bool
+  | 0, _, _ => true
+  | fuel + 1, path, data =>
+    match parseFile data with
+    | .ok (els, _) => declOk [] els && els.all fun el => okGlob el && plainEl el &&
+        match incTarget fs path el with
+        | some (p', d') => globalProjectB fs fuel p' d'
+        | none => true
+    | .stop _ => true
+
+theorem globalProject_of_B (fs : Bytes → Option Bytes) : ∀ (fuel : Nat) (path data : Bytes),
+    globalProjectB fs fuel path data = true → GlobalProject fs fuel path data := by
+  intro fuel
+  induction fuel with
+  | zero => intro _ _ _; trivial
+  | succ fuel ih =>
+    intro path data h els perr hp
+    simp only [globalProjectB, hp, List.all_eq_true, Bool.and_eq_true] at h
+    refine ⟨h.1, fun el hel => ?_⟩
+    obtain ⟨⟨h1, h2⟩, h3⟩ := h.2 el hel
+    refine ⟨h1, h2, fun p' d' ht => ih p' d' ?_⟩
+    rw [ht] at h3
+    exact h3
+
+/-- the project: `m` = `.addr 16; .du16 y; .include "i"; .du16 y; x: ; .global x` and `i` = `y: ; .du16 y + 1; .global y` — the
+main file uses the included file's global `y` ABOVE the `.include` (forward reference to a name defined in another
+file) and BELOW it, and publishes its own `x` to the global table -/
+def exGMainText : Bytes := bytesOf ".addr 16;\n.du16 y;\n.include \"i\";\n.du16 y;\nx:\n.global x;\n"
+def exGIncText : Bytes := bytesOf "y:\n.du16 y + 1;\n.global y;\n"
+def exGFs : Bytes → Option Bytes := fun p =>
+  if p = bytesOf "m" then some exGMainText else if p = bytesOf "i" then some exGIncText else none
+
+set_option maxRecDepth 100000 in
+theorem exGProject_global : GlobalProject exGFs maxDepth (bytesOf "m") exGMainText :=
+  globalProject_of_B _ _ _ _ (by decide +kernel)
+
+set_option maxRecDepth 100000 in
+/-- `Asm.run` on the project: success, no diagnostic; `y` = 18 above and below the `.include`, `y + 1` = 19 inside -/
+theorem exGProject_run : (match run exGFs (bytesOf "m") with
+    | .done o => o.success && o.diags.isEmpty && o.image == [(16, [0x12, 0x00, 0x13, 0x00, 0x12, 0x00])]
+    | _ => false) = true := by decide +kernel
+
+/-- the hypotheses of `layout_refines_asm_global_partial` hold of the project, so its conclusion does -/
+example : ∃ o, run exGFs (bytesOf "m") = .done o ∧ o.success = true ∧
+    ∃ (els : List Element) (perr : Option ParseErr) (p : List Layout.Stmt) (E : Layout.Env) (t : Table) (n : Nat)
+      (A : List (Bytes × Int)) (im' : Layout.Img),
+      parseFile exGMainText = .ok (els, perr) ∧ GFlat exNum2 exGFs encoder E 1 (bytesOf "m") t 2 none els p n ∧
+      Layout.Ref.pass2 none [] (p ++ aliases (exNum2 0) (exNum2 1) A) = some im' ∧ ∀ a, Map.abs o.image a = im'.get a := by
+  have hr := exGProject_run
+  cases hrun : run exGFs (bytesOf "m") with
+  | done o =>
+    rw [hrun] at hr
+    simp only [Bool.and_eq_true] at hr
+    obtain ⟨els, perr, p, E, t, n, A, im', h1, _, h3, _, _, _, _, h8, h9, _⟩ :=
+      layout_refines_asm_global_partial exNum2_inj exGFs (bytesOf "m") exGMainText rfl exGProject_global o hrun hr.1.1
+    exact ⟨o, rfl, hr.1.1, els, perr, p, E, t, n, A, im', h1, h3, h8, h9⟩
+  | noMain => rw [hrun] at hr; cases hr
+  | panic => rw [hrun] at hr; cases hr
+  | fuel => rw [hrun] at hr; cases hr
+  | loop => rw [hrun] at hr; cases hr
+
+/-- the flattened program of the project with its alias statements (main file: `y` = 10, `x` = 11; included file: `y` = 20;
+global table: `x` = 1) and its reference layout: the image `Asm.run` produces; `y` of the main file IS `y` of the
+included file -/
+example : Layout.Ref.layout [.addr 16, .emit 2 [10] [0x12, 0x00], .label 20, .raw [0x13, 0x00], .const 10 [20] 18,
+        .raw [0x12, 0x00], .label 11, .const 1 [11] 22] =
+      some [(20, 0x12), (21, 0x00), (18, 0x13), (19, 0x00), (16, 0x12), (17, 0x00)] ∧
+    Layout.Ref.pass1 none [] [.addr 16, .emit 2 [10] [0x12, 0x00], .label 20, .raw [0x13, 0x00], .const 10 [20] 18,
+        .raw [0x12, 0x00], .label 11, .const 1 [11] 22] =
+      some [(1, 22), (11, 22), (10, 18), (20, 18)] := ⟨by rfl, by rfl⟩
+
 end Trion.Asm
